@@ -352,6 +352,69 @@ fn floats_through_bridge(g: &mut Gen, st: &mut Stats) -> CaseResult {
     Ok(())
 }
 
+/// C05S (part of C05): the integer and `char` targets of the serde bridge over every head form. An integer item is a sign,
+/// an argument and one of five head widths (the argument need not be minimal for its width); a target accepts it exactly
+/// when the mathematical value is representable in the target type, and then returns that value - whatever the width.
+fn ints_through_bridge(g: &mut Gen, st: &mut Stats) -> CaseResult {
+    st.eval();
+    let neg = g.bool();
+    let width = g.below(5); // immediate, 1, 2, 4, 8 bytes
+    let max: u64 = [23, 0xff, 0xffff, 0xffff_ffff, u64::MAX][width];
+    let arg: u64 = match g.below(6) {
+        0 => { let k = g.below(65); let base = if k == 64 { u64::MAX } else { (1u64 << k).wrapping_sub(1) }; base.wrapping_add(g.below(7) as u64).wrapping_sub(3) }
+        1 => *g.pick(&[0u64, 1, 23, 24, 0x7f, 0x80, 0xff, 0x100, 0x7fff, 0x8000, 0xffff, 0x1_0000, 0xd7ff, 0xd800, 0xdfff, 0xe000, 0x10_ffff, 0x11_0000, 0x7fff_ffff, 0x8000_0000, 0xffff_ffff, 0x1_0000_0000, i64::MAX as u64, 1 << 63, u64::MAX]),
+        2 => g.below(0x11_0800) as u64,
+        _ => g.u64() >> g.below(64)
+    }.min(max);
+    let mut bytes = Vec::new();
+    let major = if neg { 0x20u8 } else { 0x00 };
+    match width { 0 => bytes.push(major | arg as u8), 1 => { bytes.push(major | 24); bytes.push(arg as u8) } 2 => { bytes.push(major | 25); bytes.extend_from_slice(&(arg as u16).to_be_bytes()) } 3 => { bytes.push(major | 26); bytes.extend_from_slice(&(arg as u32).to_be_bytes()) } _ => { bytes.push(major | 27); bytes.extend_from_slice(&arg.to_be_bytes()) } }
+    let val: i128 = if neg { -1 - arg as i128 } else { arg as i128 };
+    let minimal = match width { 0 => true, 1 => arg > 23, 2 => arg > 0xff, 3 => arg > 0xffff, _ => arg > 0xffff_ffff };
+    // junk after the item: exact consumption is not at stake here, the item is offered alone and inside containers
+    macro_rules! target { ($t:ty) => {{
+        let want: Option<$t> = <$t>::try_from(val).ok();
+        let got = minicbor_serde::from_slice::<$t>(&bytes);
+        match (&want, &got) {
+            (Some(w), Ok(x)) => ensure!(w == x, "wrong-value", "{} from {} ({}) = {} but the item denotes {}", stringify!($t), short_hex(&bytes), if minimal { "shortest head" } else { "wider head" }, x, val),
+            (Some(w), Err(e)) => fail!("representable-rejected", "{} from {} ({}): the item denotes {} = {:?}, rejected: {}", stringify!($t), short_hex(&bytes), if minimal { "shortest head" } else { "wider head" }, val, w, e),
+            (None, Ok(x)) => fail!("unrepresentable-accepted", "{} from {}: the item denotes {}, which {} cannot hold, but {} was returned", stringify!($t), short_hex(&bytes), val, stringify!($t), x),
+            (None, Err(_)) => {}
+        }
+        // the same item as element / field / optional
+        let mut arr = vec![0x82u8]; arr.extend_from_slice(&bytes); arr.extend_from_slice(&bytes);
+        let got2 = minicbor_serde::from_slice::<($t, $t)>(&arr).ok();
+        ensure!(got2 == want.map(|w| (w, w)), "in-tuple", "({0}, {0}) from {1} = {2:?}, the single item gives {3:?}", stringify!($t), short_hex(&arr), got2, want);
+        let got3 = minicbor_serde::from_slice::<Option<$t>>(&bytes).ok();
+        ensure!(got3 == want.map(Some), "in-option", "Option<{}> from {} = {:?}, the single item gives {:?}", stringify!($t), short_hex(&bytes), got3, want);
+        want.is_some()
+    }}}
+    let mut accepted = 0;
+    scoped("bridge-ints", || {
+        for ok in [target!(u8), target!(u16), target!(u32), target!(u64), target!(i8), target!(i16), target!(i32), target!(i64)] { if ok { accepted += 1 } }
+        // usize / isize are 64 bit here
+        let _ = (target!(usize), target!(isize));
+        // char: an unsigned item whose value is a Unicode scalar value
+        let want: Option<char> = if !neg && arg <= u32::MAX as u64 { char::from_u32(arg as u32) } else { None };
+        let got = minicbor_serde::from_slice::<char>(&bytes);
+        match (&want, &got) {
+            (Some(w), Ok(x)) => ensure!(w == x, "wrong-char", "char from {} = {:?}, expected {:?}", short_hex(&bytes), x, w),
+            (Some(w), Err(e)) => fail!("char-rejected", "char from {} ({}): the item denotes the scalar value {:?}, rejected: {}", short_hex(&bytes), if minimal { "shortest head" } else { "wider head" }, w, e),
+            (None, Ok(x)) => fail!("char-accepted", "char from {}: {} is not a scalar value but {:?} was returned", short_hex(&bytes), val, x),
+            (None, Err(_)) => {}
+        }
+        let mut v2 = vec![0x81u8]; v2.extend_from_slice(&bytes);
+        let gotv = minicbor_serde::from_slice::<Vec<char>>(&v2).ok();
+        ensure!(gotv == want.map(|c| vec![c]), "char-in-vec", "Vec<char> from {} = {:?}, the single item gives {:?}", short_hex(&v2), gotv, want);
+        if want.is_some() { st.class(if minimal { "bridge-ints/char, shortest head" } else { "bridge-ints/char, wider head" }) }
+        Ok(())
+    })?;
+    st.class(&format!("bridge-ints/{} head of {} argument bytes{}", if neg { "negative" } else { "unsigned" }, [0, 1, 2, 4, 8][width], if minimal { "" } else { ", not shortest" }));
+    if accepted > 0 && accepted < 8 { st.nontrivial(hash_of(&bytes)) }
+    st.sample(hash_of(&bytes), || format!("{} denotes {}: accepted by {} of the 8 fixed-width integer targets", short_hex(&bytes), val, accepted));
+    Ok(())
+}
+
 fn subs() -> Vec<Sub> {
     vec![
         Sub { prop: "C17", name: "family", rule: "value of one of 48 serde types (all primitives <= 64 bit, char, strings, serialize_bytes buffers, options, unit, unit/newtype/tuple/named structs, seqs, tuples, arrays, maps, externally/internally/adjacently/un-tagged enums, flatten, skip_serializing_if, renames, unknown-length seq/map, 25-field struct): bytes == independent model serializer (documented representation) and one well-formed item; from_slice == value with exact consumption (junk follows); wider heads -> same value; indefinite containers / chunked strings -> same value or error; unknown extra struct entry ignored; distinct by (type, bytes)",
@@ -364,6 +427,8 @@ fn subs() -> Vec<Sub> {
               kind: Kind::Random { quick: 150_000, thorough: 1_000_000, tape: 256, f: borrowed_buffered } },
         Sub { prop: "C12S", name: "bridge-floats", rule: "f32 / f64 bit patterns (boundary-dense, signalling NaNs and payloads included) through the serde bridge - top level, Vec, Option and the contexts serde buffers through deserialize_any (untagged, internally tagged, flatten): identical bit pattern back, wire width = width of the Rust type, f64 item refused by an f32 target, f32 item widens exactly, every half item read as f32 / f64 equals the reference value",
               kind: Kind::Random { quick: 300_000, thorough: 3_000_000, tape: 128, f: floats_through_bridge } },
+        Sub { prop: "C05S", name: "bridge-ints", rule: "integer item = sign x head width (immediate, 1, 2, 4, 8 argument bytes; the argument need not be minimal for the width) x argument (2^k +- 3, type and surrogate boundaries, uniform): each of u8..u64, i8..i64, usize, isize through minicbor_serde::from_slice returns the value iff the mathematical value is representable (try_from over i128), else an error; char iff unsigned and a Unicode scalar value; the same verdict as element of a tuple / Vec and under Option; non-trivial = accepted by some but not all fixed-width integer targets",
+              kind: Kind::Random { quick: 600_000, thorough: 6_000_000, tape: 64, f: ints_through_bridge } },
         Sub { prop: "C18", name: "long-documents", rule: "sequences / maps / nested sequences of 130-2500 elements (many None, unit, tuple and array elements) in the shared model: the same oracle as shared-model; cumulative effects (depth or element counters, budgets) need this many elements to show",
               kind: Kind::Random { quick: 3_000, thorough: 60_000, tape: 16384, f: c18_long } },
         Sub { prop: "C18", name: "shared-model", rule: "value of one of 52 types in the data model shared by both codecs: minicbor::to_vec == minicbor_serde::to_vec; each side's bytes decode through the other side to the value; re-framed encodings (wider heads: both must accept; indefinite containers / chunked strings) never yield two different values or a value different from the model's; distinct by (type, bytes)",
@@ -376,6 +441,7 @@ fn assumptions(p: &str) -> Vec<String> {
         "C17" => vec!["the model serializer (g_serde/src/modelser.rs) states the documented representation: struct = map keyed by field name, unit variant = text, other variants = one-entry map, None = null, unit = empty array, char = its scalar value (shared with the native codec), unknown length = indefinite".into(),
                       "floats in the family are generated non-NaN so that derived PartialEq is the equality relation".into(),
                       "Option directly inside Option is not generated (the documented exclusion)".into()],
+        "C05S" => vec!["the bridge's integer targets are the serde primitives u8..u64, i8..i64, usize, isize (64 bit on this platform) and char; 128-bit targets are not part of the bridge".into()],
         _ => vec!["the shared model is the 52 listed std types; equality is bitwise for floats".into()]
     }
 }
